@@ -270,7 +270,7 @@ class Edits:
         CUTS = ('R9 truncate', 'R11 skip')
         big = [(s, e) for (s, e, t, k, nt) in self.items if (k == 'drop' and nt == 'cfg-false') or nt in CUTS]
         for _, (s, e, t, kind, note) in its:
-            if note not in ('cfg-false',) + CUTS and any(bs <= s and e <= be for (bs, be) in big):
+            if note not in ('cfg-false',) + CUTS and any(bs <= s and e <= be and not (s == e == bs) for (bs, be) in big):
                 continue   # edit lies inside a region removed by E2 / R9 / R11
             if note == 'cfg-false' and any(bs <= s and e <= be for (bs, be, bt, bk, bn) in self.items if bn in CUTS):
                 continue   # cfg region inside the truncated suffix / skipped prefix
@@ -1134,8 +1134,27 @@ def extract_fn(repo, spec, features):
         else:
             ivar, xvar, yvar = mB.group(1), mB.group(2), mB.group(3)
             expr, expr2, start = mB.group(4).replace(' ', ''), mB.group(5).replace(' ', ''), mB.group(6) or '0'
+            amp2 = '&'
+            if re.fullmatch(r'\w+', expr2):
+                # shape B2: the zip argument is a local bound by `let Q = PATH2.iter().copied();` (Copied<slice::Iter>:
+                # yields the elements BY VALUE, in order): use PATH2 directly, bind by value, drop the `let`.
+                # Accepted only if Q occurs nowhere else in the body.
+                occ = [k for k in range(bo + 1, bc) if is_id(T[k], expr2) and alive(T[k])]
+                lets = [k for k in occ if is_id(T[k - 1], 'let') and is_p(T[k + 1], '=')]
+                if len(lets) == 1 and len(occ) == 2:
+                    k0 = lets[0]
+                    k1 = k0 + 2
+                    while not is_p(T[k1], ';'):
+                        k1 += 1
+                    rhs = ' '.join(t.text for t in T[k0 + 2:k1])
+                    mQ = re.fullmatch(PATH + r' \. iter \( \) \. copied \( \)', rhs)
+                    if mQ:
+                        edits.add(T[k0 - 1].start, T[k1].end, '', 'rewrite', 'R2 zip-source let')
+                        dropped.append((T[k0 - 1].start, T[k1].end))
+                        expr2 = mQ.group(1).replace(' ', '')
+                        amp2 = ''
             head = f'let mut {ivar} = {start}; while {ivar} < {expr}.len() && {ivar} < {expr2}.len() '
-            bind = f' let {xvar} = &{expr}[{ivar}]; let {yvar} = &{expr2}[{ivar}];'
+            bind = f' let {xvar} = &{expr}[{ivar}]; let {yvar} = {amp2}{expr2}[{ivar}];'
         # `continue` of THIS loop (not of a nested loop) must still step the index
         nested = []
         for lj in loops_in(sf, b + 1, be):
